@@ -397,8 +397,19 @@ func c10Run(w *W) {
 		w.Probe("context-close")
 		// ... and only them: a Send blocked on the socket itself (REQ with no
 		// peer yet) goes out as soon as a peer is there
-		if kind == "req" && tran == "msg" && npeers == 0 {
-			if p := mn.Connect(laddr); p != nil {
+		if kind == "req" && npeers == 0 {
+			attachedPeer := false
+			if tran == "msg" {
+				attachedPeer = mn.Connect(laddr) != nil
+			} else {
+				ps := w.Sock("rep")
+				all = append(all, ps)
+				if err := ps.DialOptions(laddr, w.EpOpts(laddr, false, map[string]interface{}{mangos.OptionDialAsynch: false})); err == nil {
+					attachedPeer = true
+					w.Sleep(5 * time.Millisecond)
+				}
+			}
+			if attachedPeer {
 				w.Settle()
 				for _, f := range fl {
 					if !f.onCtx && strings.HasPrefix(f.c.Label, "Send#") && !f.c.Returned() {
